@@ -9,9 +9,11 @@ import Curtsies.Driver.Keys
 import Curtsies.Driver.EscParse
 import Curtsies.Driver.Input
 import Curtsies.Driver.Atts
+import Curtsies.Driver.Heap
+import Curtsies.Driver.Contexts
 open Curtsies.Driver
 
-def handlers : List (List String → Option String) := [fmtOps, fsaOps, widthOps, sgrOps, keyOps, escOps, windowOps, inputOps, attsOps]
+def handlers : List (List String → Option String) := [fmtOps, fsaOps, widthOps, sgrOps, keyOps, escOps, windowOps, inputOps, attsOps, ctxOps, heapOps]
 
 def step (line : String) : String :=
   let args := (line.trimAscii.toString.splitOn " ")
